@@ -155,9 +155,9 @@ def classify(rc, text, parsed):
 
 
 def run_one(mirror, target_dir, harness, logdir, timeout=1200, mem_gb=14, features=None, no_default=False,
-            stubbing=False, extra=(), tag=""):
+            stubbing=False, extra=(), tag="", cbmc_extra=()):
     cmd = _base_cmd(target_dir, features, no_default, stubbing, extra) + ["--harness", harness, "--exact"]
-    cmd += ["--cbmc-args"] + CBMC_ARGS
+    cmd += ["--cbmc-args"] + CBMC_ARGS + list(cbmc_extra)
     log = os.path.join(logdir, (tag + harness).replace("::", "__") + ".log")
     sh = "ulimit -v %d; exec timeout -k 10 %d %s" % (
         int(mem_gb * 1024 * 1024),
@@ -191,7 +191,7 @@ def run_many(mirror, target_dirs, jobs, logdir, parallel=14, mem_budget_gb=50, o
     results = []
     pool = queue.Queue()
     for k in range(parallel):
-        pool.put("%s_w%d" % (target_dirs, k))
+        pool.put(k)
     cond = threading.Condition()
     used = [0.0]
 
@@ -201,15 +201,18 @@ def run_many(mirror, target_dirs, jobs, logdir, parallel=14, mem_budget_gb=50, o
             while used[0] + need > mem_budget_gb:
                 cond.wait()
             used[0] += need
-        td = pool.get()
+        wk = pool.get()
         try:
             kw = dict(common)
-            for k in ("timeout", "mem_gb", "extra", "tag"):
+            # a job may carry its own build (mirror directory, target base, feature set): jobs of several
+            # builds then share one worker pool instead of running build after build
+            for k in ("timeout", "mem_gb", "extra", "tag", "features", "no_default", "stubbing", "cbmc_extra"):
                 if k in j:
                     kw[k] = j[k]
-            return run_one(mirror, td, j["harness"], logdir, **kw)
+            td = "%s_w%d" % (j.get("target_base", target_dirs), wk)
+            return run_one(j.get("mirror", mirror), td, j["harness"], logdir, **kw)
         finally:
-            pool.put(td)
+            pool.put(wk)
             with cond:
                 used[0] -= need
                 cond.notify_all()
